@@ -95,8 +95,8 @@ class BitField:
             val = vals[name]
             mask = self._bits_mask(bits)
             if self.shift:
-                if val > mask:
-                    raise ValueError("%r larger than max %r" % (val, mask))
+                if not 0 <= val <= mask:
+                    raise ValueError("%r not within 0..%r" % (val, mask))
                 packed |= val << cur_bit
             else:
                 mask = (mask << cur_bit)
